@@ -57,3 +57,18 @@ J('C06', 'c06_address', 'c06_arrays.cc', 'c06_address', units=['arrays.cc', 'err
   desc='address_array: 3..5 cells, 3 nondet operations from {set(any 64-bit value), swap, expand, shrink}')
 J('C06', 'c06_level', 'c06_arrays.cc', 'c06_level', units=['arrays.cc', 'error.cc'], gxx_units=['io.cc'], unwind=12, covers=[1, 2, 3, 4], timeout=900,
   desc='level_array: any max_level in [1,2^31), 3 nondet operations from {set(any level in range), swap, expand}')
+for st in MM_UNITS:
+    mm_job(st, 4, 1, 8, 2, 'exp', 3000)
+    mm_job(st, 4, 1, 8, 3, 'exp', 3000)
+
+# ---------------------------------------------------------------- C05 (L1 kernels)
+C05_OPS = ['plus', 'minus', 'mult', 'div', 'mod', 'max', 'min', 'distmin']
+for k, nm in enumerate(C05_OPS):
+    J('C05', 'c05_mt_long_' + nm, 'c05_kernels.cc', 'c05_mt_long', units=['error.cc'], defines={'OP': k}, unwind=3, timeout=900, gxx_units=['ALL'],
+      gxx_exclude=['operations/arith_%s.cc' % nm],
+      covers=[3] + ([1] if nm in ('div', 'mod') else []) + ([2] if nm in ('plus', 'minus', 'mult') else []),
+      desc='MT integer policy mt_%s<long> from operations/arith_%s.cc: both operands any terminal value in [-2^30, 2^30)' % (nm, nm))
+    if nm != 'mod':
+        J('C05', 'c05_mt_real_' + nm, 'c05_kernels.cc', 'c05_mt_real', units=['error.cc'], defines={'OP': k}, unwind=3, timeout=900, gxx_units=['ALL'],
+          gxx_exclude=['operations/arith_%s.cc' % nm], covers=[2] + ([1] if nm == 'div' else []),
+          desc='MT real policy mt_%s<float>: both operands any finite real terminal (all non-NaN, non-inf float patterns through the handle encoding)' % nm)
